@@ -1,4 +1,5 @@
 import PyrollProofs.GrooveRepSurface
+import PyrollProofs.RollObjectLemmas
 
 /-!
 # C10 — all representations of one groove or roll surface describe the same shape
@@ -19,7 +20,7 @@ spline groove's centring / width / depth terms, the entry-point formula) run by 
   `spline_refinement_invariant` as the hypothesis that the stripped refined polyline refines the stripped polyline.
 -/
 
-open GrooveRep Gen.C10 GrooveRepC GrooveRepI GrooveRepS
+open GrooveRep Gen.C10 GrooveRepC GrooveRepI GrooveRepS RollObject
 
 namespace C10
 
@@ -362,6 +363,76 @@ theorem spline_face_refinement_invariant (pts pts' : List (ℝ × ℝ)) (h : Ref
   first
     | rfl
     | (simp only [onFace, spline_face, FaceTest.onFace, LTerm.eval, hx0, hx1, hy0, hy1])
+
+/-! ## roll: what the object remembers between two calls
+
+`Gen.C10.roll_tables` is what the translator read from `Roll.__init__`, `Roll.reevaluate_cache`, the other methods /
+properties of the class and the hook functions of `pyroll/core/roll/hookimpls.py`; `rollRun` (PyrollModel/RollObject.lean)
+replays a life of ONE roll object: changes of its data, each made visible by `reevaluate_cache()`, and calls. -/
+
+/-- nothing was found outside the translated subset (no state at module level, no decorator but `property`, no private
+    attribute used outside the memo shape), every private attribute `__init__` creates is emptied by `reevaluate_cache`,
+    every remembering method keeps its result in such an attribute, and - `reevaluate_cache` emptying them only AFTER the hook
+    values were re-evaluated - what they hold is computed from the contour points alone -/
+theorem roll_keeps_nothing_across_reevaluation : roll_state_ok = true ∧ roll_tables.sound = true := by
+  decide
+
+/-- a used roll answers like a new one: in every life of a roll object in which the contact length, the radii, the
+    discretisation change any number of times (free roll: value set + `reevaluate_cache()`; roll of a pass: every solution
+    iteration, every further `solve`) every call of `contour_line`, `surface_interpolation` and every read of a hook that
+    reads one of them is answered from the data the roll has at the time of the call, never from what an earlier call left
+    on the object.  (Replacing the groove contour is covered only when `reevaluate_cache` empties the private attributes
+    BEFORE re-evaluating the hook values - see `reset_after_refresh_goes_stale_on_contour_change`.) -/
+theorem used_roll_answers_like_a_new_one (ops : List RollOp)
+    (h : roll_tables.resetAfterHooks = true → RollOp.changeShape ∉ ops) :
+    ∀ a ∈ rollRun roll_tables {} ops, a.1 = a.2 :=
+  rollRun_fresh roll_tables roll_keeps_nothing_across_reevaluation.2 ops {} (inv_new _) h
+
+/-- an interpolator object kept on the roll and not emptied by `reevaluate_cache` (whatever decides when it is rebuilt;
+    tables written out, independent of the generated file): they do not pass the static check, and the second interpolation after a change of the contact length is
+    answered from the data of the first -/
+theorem kept_interpolator_goes_stale :
+    let T : RollTables :=
+      { privateFields := ["_contour_line", "_surface_interpolator"], resets := ["_contour_line"], resetAfterHooks := true,
+        memoFields := [("_contour_line", .shape), ("_surface_interpolator", .all)],
+        methods := [("contour_line", .memo "_contour_line"), ("surface_interpolation", .memo "_surface_interpolator")],
+        hookReads := [("min_radius", "contour_line")] }
+    T.sound = false
+      ∧ rollRun T {} [.call "surface_interpolation", .changeRest, .call "surface_interpolation"]
+          = [(⟨0, 0⟩, ⟨0, 0⟩), (⟨0, 0⟩, ⟨0, 1⟩)] := by
+  decide
+
+/-- the order of the two statements of `Roll.reevaluate_cache` matters when the groove contour is replaced: with the hook
+    values re-evaluated first, `min_radius` is computed from the contour line remembered for the OLD contour (and the
+    surface grid from that `min_radius`); a second `reevaluate_cache()` repairs it.  With the attributes emptied first
+    nothing is stale.  (Tables as read from pyroll-core today, written out: this witness does not depend on the generated
+    file.  Observation on the unchanged tree, see notes/C10.md; the correspondence replays it on the real `Roll`.) -/
+theorem reset_after_refresh_goes_stale_on_contour_change :
+    let T (after : Bool) : RollTables :=
+      { privateFields := ["_contour_line"], resets := ["_contour_line"], resetAfterHooks := after,
+        memoFields := [("_contour_line", .shape)],
+        methods := [("contour_line", .memo "_contour_line"), ("surface_interpolation", .pure)],
+        hookReads := [("min_radius", "contour_line")] }
+    let life : List RollOp := [.call "min_radius", .changeShape, .call "min_radius", .call "surface_interpolation",
+      .call "contour_line", .changeRest, .call "min_radius", .call "surface_interpolation"]
+    rollRun (T true) {} life = [(⟨0, 0⟩, ⟨0, 0⟩), (⟨0, 0⟩, ⟨1, 0⟩), (⟨0, 0⟩, ⟨1, 0⟩), (⟨1, 0⟩, ⟨1, 0⟩), (⟨1, 1⟩, ⟨1, 1⟩),
+        (⟨1, 1⟩, ⟨1, 1⟩)]
+      ∧ ∀ a ∈ rollRun (T false) {} life, a.1 = a.2 := by
+  decide
+
+/-- non-vacuity: the generated tables have a remembering method, a pure one and a hook function reading the former; a life
+    with three changes of the contact length and every kind of call in between satisfies the hypothesis -/
+example : (∃ f, ("contour_line", MethodKind.memo f) ∈ roll_tables.methods)
+    ∧ ("surface_interpolation", MethodKind.pure) ∈ roll_tables.methods ∧ roll_tables.hookReads ≠ []
+    ∧ roll_tables.privateFields ≠ [] := by
+  refine ⟨⟨"_contour_line", by decide⟩, by decide, by decide, by decide⟩
+
+example : rollRun roll_tables {} [.call "surface_interpolation", .call "contour_line", .call "min_radius", .changeRest,
+      .call "surface_interpolation", .changeRest, .call "min_radius", .call "contour_line", .changeRest,
+      .call "surface_interpolation"]
+    = [(⟨0, 0⟩, ⟨0, 0⟩), (⟨0, 0⟩, ⟨0, 0⟩), (⟨0, 0⟩, ⟨0, 0⟩), (⟨0, 1⟩, ⟨0, 1⟩), (⟨0, 2⟩, ⟨0, 2⟩), (⟨0, 2⟩, ⟨0, 2⟩),
+       (⟨0, 3⟩, ⟨0, 3⟩)] := by
+  decide
 
 /-! ## spline groove: the vertex array belongs to the groove -/
 
